@@ -208,6 +208,10 @@ func (eval RingPackingEvaluator) Split(ctN, ctEvenNHalf, ctOddNHalf *Ciphertext)
 		return fmt.Errorf("ctEvenNHalf.LogN() must be equal to ctN.LogN()-1")
 	}
 
+	if !ctN.IsNTT {
+		return fmt.Errorf("ctN must be in the NTT domain")
+	}
+
 	LogN := ctN.LogN()
 
 	evalN := eval.Evaluators[LogN]
@@ -415,6 +419,10 @@ func (eval RingPackingEvaluator) Merge(ctEvenNHalf, ctOddNHalf, ctN *Ciphertext)
 		if ctEvenNHalf.LogN() != ctOddNHalf.LogN() {
 			return fmt.Errorf("ctEvenNHalf.LogN() and ctOddNHalf.LogN() must be equal")
 		}
+	}
+
+	if !ctEvenNHalf.IsNTT || (ctOddNHalf != nil && !ctOddNHalf.IsNTT) {
+		return fmt.Errorf("ctEvenNHalf and ctOddNHalf must be in the NTT domain")
 	}
 
 	LogN := ctN.LogN()
